@@ -30,7 +30,7 @@ REQUIRED_LABELS = [
 
 ASSUMPTIONS = [
     "TCP replaced by SimNet/SimTransport; a drop 'inside a frame' is a response delivered up to a cut point followed by connection loss",
-    "retry policy is n -> n seconds (the real default is twisted's backoffPolicy; the policy is a constructor argument)",
+    "retry policy is n -> n * unit with unit a symbolic positive real (z3 Real; virtual time is exact), so delays are compared exactly against whatever the policy returned; afkak.brokerclient.datetime.utcfromtimestamp is a pass-through (log text only)",
     "request ids are dict keys -> concrete pool; flags, drop points and event order are symbolic choices",
 ]
 
@@ -70,6 +70,19 @@ def jobs(tier):
             {"K": 7 if q else 8, "noreply": False, "sync": True}]
 
 
+class _PassThroughDatetime:
+    """afkak.brokerclient only uses datetime.utcfromtimestamp for log messages; virtual time here is a symbolic real"""
+
+    @staticmethod
+    def utcfromtimestamp(x):
+        return x
+
+
+import afkak.brokerclient as _bcmod  # noqa: E402
+
+_bcmod.datetime = _PassThroughDatetime
+
+
 class _FirstN:
     """set-like: 'contains' the next n addresses asked for"""
 
@@ -102,7 +115,15 @@ def scenario(job):
     def run(ctx):
         clock = Clock()
         net = SimNet()
-        bc = _KafkaBrokerClient(clock, net.endpoint_factory, BrokerMetadata(7, "h", 9092), "cid", lambda n: float(n))
+        # the configured back-off: retry_policy(failures) = failures * unit, with the unit a symbolic real (so any cap, floor or
+        # rounding the code applies to the policy's answer is visible, whatever its constant)
+        from fractions import Fraction
+
+        clock.rightNow = 0.0 if ctx.symbolic else Fraction(0)
+        unit = ctx.real("backoff_unit", 0, 100000) if job.get("sym_backoff", True) else 1
+        if not ctx.assume(unit > 0):
+            return
+        bc = _KafkaBrokerClient(clock, net.endpoint_factory, BrokerMetadata(7, "h", 9092), "cid", lambda n: n * unit)
         reqs = []
         st = {"closed": False, "fails": 0, "ever_connected": False, "attempts_at_close": None, "sync_budget": 2}
         armed = _FirstN()
@@ -206,8 +227,8 @@ def scenario(job):
                     ctx.log("refused", st["fails"])
                     at.refuse()
                     t = next_timer(clock)
-                    ok = t is not None and abs((t.getTime() - clock.seconds()) - float(st["fails"])) < 1e-9
-                    ctx.check(ok, "backoff-follows-retry-policy", "after failure %d the next attempt is due in %r s" % (st["fails"], None if t is None else t.getTime() - clock.seconds()))
+                    ok = t is not None and (t.getTime() - clock.seconds()) == st["fails"] * unit
+                    ctx.check(ok, "backoff-follows-retry-policy", "after failure %d the next attempt is due in %r s, the policy says %r" % (st["fails"], None if t is None else t.getTime() - clock.seconds(), st["fails"] * unit))
                     if st["ever_connected"]:
                         ctx.check(ok, "failure-count-resets-after-success")
                     ctx.check(not net.pending_attempts(), "no-attempt-during-backoff")
@@ -287,7 +308,7 @@ def scenario(job):
                 ctx.log("connect-failed-immediately", st["fails"])
                 if not st["closed"]:
                     t = next_timer(clock)
-                    ok = t is not None and abs((t.getTime() - clock.seconds()) - float(st["fails"])) < 1e-9
+                    ok = t is not None and (t.getTime() - clock.seconds()) == st["fails"] * unit
                     ctx.check(ok, "backoff-follows-retry-policy", "after immediate failure %d the next attempt is due in %r s" % (st["fails"], None if t is None else t.getTime() - clock.seconds()))
                     ctx.check(not net.pending_attempts(), "no-attempt-during-backoff")
             if st["closed"]:
